@@ -72,4 +72,5 @@ func c10r910(p *model.Prog, r *report.Result) {
 	r.Check(ok, "C10.R10", fkey(capFn, "ring", "spare-slot"), p.Pos(capFn.Pos()), "FragmentNum + DeleteThreshold + 1", "the fragment ring has no spare slot beyond fragment_num + delete_threshold: the slot handed to getDeleteFrag still belongs to a segment that the last delete_threshold playlist versions list, and with cleanup_mode asap its file is removed while players still fetch it")
 	w6DeleteSlot(p, r, "C10.R11")
 	w6VideoBoundaryKey(p, r, "C10.R12")
+	w7TsFileName(p, r, "C10.R13")
 }
